@@ -321,7 +321,7 @@ class Checker:
 
     def op_add(self, ch, prio, slot, timeout, picks=()):
         eng = self.eng
-        jobid = None if slot is None else "j%d" % slot
+        jobid = None if slot is None else (slot if isinstance(slot, str) else "j%d" % slot)
         existed = jobid in self.jobs and self.jobs[jobid].error != "killed" and not self.dropped(jobid)
         before = self.real_numjobs()
         try:
@@ -394,6 +394,35 @@ class Checker:
             mj.ttl = min(10, mj.ttl) if error else mj.ttl
         if mj.holder is conn:
             mj.holder = None
+
+    def op_finishr(self, w, k, result, error):
+        """finish with an explicit result dict / error string (C19)"""
+        conn = self.eng.workers[w]
+        if not conn.idle:
+            return
+        held = sorted([mj for mj in self.jobs.values() if mj.holder is conn], key=lambda m: m.serial)
+        if not held:
+            return
+        mj = held[k % len(held)]
+        if self.dropped(mj.jobid):
+            return
+        self.eng.finish(w, mj.jobid, result, error)
+        if self._mark_done(mj, result, error):
+            mj.ttl = min(10, mj.ttl) if error else mj.ttl
+        mj.holder = None
+
+    def op_setinfo(self, jobid, info):
+        mj = self.jobs.get(jobid)
+        if mj is None or self.dropped(jobid):
+            return
+        self.eng.setinfo(None, jobid, info)
+        mj.info.update(info)
+        self.labels.add("info-update")
+
+    def op_killid_str(self, jobid):
+        if jobid in self.jobs:
+            ids = list(dict.fromkeys(self.order))
+            self.op_kill(ids.index(jobid))
 
     def op_kill(self, idx):
         jid = self.nth_job(idx)
